@@ -33,6 +33,12 @@ Proof. intros H Hd. rewrite H. apply etags_roundtrip. exact Hd. Qed.
 
 (* option headers: a key that keeps a star after RFC 2231 processing is written raw *)
 Definition s_opt_star : str := [97; 59; 32; 98; 42; 42; 61; 120; 32; 121].
+Lemma options_normal_form_refuted :
+  exists s h o t r, parse_options_header s = Ok (h, o) /\ dump_options_header h o = Ok t /\ parse_options_header t = Ok r /\ r <> (h, o).
+Proof.
+  exists [97; 59; 32; 98; 42; 42; 61; 120]. eexists. eexists. eexists. eexists.
+  split; [vm_compute; reflexivity|]. split; [vm_compute; reflexivity|]. split; [vm_compute; reflexivity|]. discriminate.
+Qed.
 Lemma options_normal_form_partial s h o : parse_options_header s = Ok (h, o) -> opt_domain h o = true ->
   exists t, dump_options_header h o = Ok t /\ parse_options_header t = parse_options_header s.
 Proof. intros H Hd. destruct (options_roundtrip h o Hd) as (t & Ht & Hp). exists t. rewrite H. tauto. Qed.
